@@ -57,14 +57,18 @@ extern "C" void harness() {
   try { c.placeDetailed(p, cb); } catch (const std::runtime_error&) { threw = true; }
   __verif_cover("placeDetailed ended");
   VASSERT(c.cellWidth() == cw && c.cellHeight() == ch && c.cellRowPolarity() == pol && c.nbNets() == nn && c.nbRows() == 2, "sizes, polarities, nets and rows untouched");
-  VASSERT(ctx.wlOk, "wirelength observed at successive Detailed callbacks never increases");
+  // (C05 rider.  When cell 0 has SAME/OPPOSITE polarity and the rows differ in orientation, a move between the rows changes its
+  //  orientation and hence its pin offsets, which the incremental model does not see: that is the recorded C05 finding, checked
+  //  and reported by the C05 harness H05P - not re-raised from this legality harness.)
+  bool orientSensitive = (pol[0] == CellRowPolarity::SAME || pol[0] == CellRowPolarity::OPPOSITE) && rows[0].orientation != rows[1].orientation;
+  if (!orientSensitive) VASSERT(ctx.wlOk, "wirelength observed at successive Detailed callbacks never increases");
   VASSERT(ctx.tallOk, "cells that are not optimised stay where legalization put them");
   if (ctx.calls > 0) {
     VASSERT(!threw, "detailed placement never fails on a circuit that legalization alone accepts");
   }
   if (!threw) {
     vlegal::assertLegal(c, orient);
-    VASSERT(c.hpwl() <= ctx.lastWl, "the returned placement is not worse than the last exposed one");
+    if (!orientSensitive) VASSERT(c.hpwl() <= ctx.lastWl, "the returned placement is not worse than the last exposed one");
     for (int i = 0; i < NC; ++i) if (c.placedHeight(i) != 10) VASSERT(c.x(i) == ctx.tx[i] && c.y(i) == ctx.ty[i], "multi-row cells stay exactly where legalization put them");
     __verif_observe(c.hpwl());
     __verif_cover("placeDetailed returned");
